@@ -170,10 +170,13 @@ def check_c11(tier):
                      {"request": hdr, "rejected_event": ev, "state_before": rj["state_before"],
                       "episode_events": rj["episode"],
                       "note": "no behaviour of BodyLimit.tla explains what the real server did with this body"})
+    proof = vlib.run_tlapm("C11-proof", "BodyLimitProof.tla", ["BodyLimitCore.tla"],
+                           theorems=["NeverOverCapUnbounded: for every cap and every frame sequence the reader never has "
+                                     "delivered more than the cap", "FrozenAfterRefusal"])
     rc = findings.report()
     vlib.write_evidence(
         "C11", tier, "model_checking",
-        {"states": res.distinct + states, "transitions": res.generated + states,
+        {"unbounded_proof": proof, "states": res.distinct + states, "transitions": res.generated + states,
          "traces_validated_against_impl": len(results) + neps, "samples": samples,
          "frame_sequences_replayed": len(results), "replay_mismatches": nm,
          "wire_requests_validated": neps, "wire_events": nev, "wire_rejections": len(rejects),
@@ -252,10 +255,15 @@ def _pagination(prop, tier):
             counts[ev] = counts.get(ev, 0) + 1
             if ev in ("page", "case", "mutant", "issue") and counts[ev] in (3, 40) and len(samples) < 6:
                 samples.append(json.loads(ln))
+    proof = vlib.run_tlapm(prop + "-proof", "PaginationProof.tla", ["PaginationCore.tla"],
+                           theorems=["PrefixAlways: what a scan has returned is always 1..pos, pos <= n, and a finished scan "
+                                     "has returned everything -- for every n, limit and server constants >= 1",
+                                     "PagesPartition: each page is the next contiguous block within the effective limit, "
+                                     "token iff non-empty", "FetchDecreasesVariant: a scan ends after at most n + 1 fetches"])
     rc = findings.report()
     vlib.write_evidence(
         prop, tier, "model_checking",
-        {"states": res.distinct + states, "transitions": res.generated + states,
+        {"states": res.distinct + states, "transitions": res.generated + states, "unbounded_proof": proof,
          "traces_validated_against_impl": neps, "samples": samples, "trace_events": nev,
          "scans": counts.get("scan_end", 0), "pages_fetched": counts.get("page", 0),
          "class_cases_executed": counts.get("case", 0), "tokens_issued_or_refused": counts.get("issue", 0),
